@@ -1930,6 +1930,19 @@ fn main() {
     if let Some(p) = &args.replay {
         replay(p);
     }
+    if args.rest.iter().any(|a| a == "--list") {
+        // development aid: the enumerated space, without running anything
+        let cases = enumerate(args.tier);
+        let mut per: BTreeMap<String, usize> = BTreeMap::new();
+        for c in &cases {
+            *per.entry(format!("{}:{}", c.base, c.field)).or_default() += 1;
+        }
+        for (k, n) in &per {
+            println!("{n:6} {k}");
+        }
+        println!("{:6} cases, {} out of range", cases.len(), cases.iter().filter(|c| !c.fits).count());
+        return;
+    }
     let mut rep = vcore::Reporter::new("C19", "exploration", &args);
     for b in [vcore::fontc_bin(), vcore::fontc_bin_checked()] {
         if !b.exists() {
